@@ -110,7 +110,7 @@ def run_expflow(ctx: Ctx) -> None:
                              "the stored steps and align_corners; inverse()/inv negate the scale exactly once on a copy (original unchanged); "
                              "inverse().inverse() restores it")
     for scale in (None, Fraction(1, 2), -3):
-        for steps in (None, 2):
+        for steps in (None, 0, 2):  # (0 is a legal value that must not be mistaken for "not given")
             for ac in (True, False):
                 def th(scale=scale, steps=steps, ac=ac):
                     reset_relations()
